@@ -139,12 +139,21 @@ fn step(name: &str) -> ReferenceStep
 {
 	match name
 	{
-		"Element" => ReferenceStep::Element {
+		"Element" | "Element:none" | "Element:true" | "Element:false" => ReferenceStep::Element {
 			argument: Box::new(Expression::BooleanLiteral {
 				value: true,
 				location: loc(),
 			}),
-			is_endless: None,
+			is_endless: match name
+			{
+				"Element:true" => Some(true),
+				"Element:false" => Some(false),
+				_ => None,
+			},
+		},
+		"Member:some" => ReferenceStep::Member {
+			member: id(7),
+			offset: Some(1),
 		},
 		"Member" => ReferenceStep::Member {
 			member: id(7),
